@@ -539,7 +539,9 @@ func outputKeyedComposableRunnable(key string, r *composableRunnable) *composabl
 
 // composablePassthrough special runnable that passthrough input to output
 func composablePassthrough() *composableRunnable {
-	r := &composableRunnable{isPassthrough: true, nodeInfo: &nodeInfo{}}
+	// a passthrough accepts no call option: a non-nil option type keeps extractOption from
+	// treating it as a sub graph (nil option type means "transmit all options").
+	r := &composableRunnable{isPassthrough: true, nodeInfo: &nodeInfo{}, optionType: generic.TypeOf[unreachableOption]()}
 
 	r.i = func(ctx context.Context, input any, opts ...any) (output any, err error) {
 		return input, nil
